@@ -91,7 +91,7 @@ def run(tier, seed):
     exe = vkit.cc("eventcore_drv", ["eventcore_drv.c"], vclock=True)
     c = ec.consts({1, 2, 3, 4, 5}, A, 14 if q else 22, scriptops=S, prealloc=False, durs=(0, 1, 2))
     hs = ec.generate(chk, "C08_gen", c, simulate=40 if q else 300, depth=500, seed=seed, invariants=ec.INV_LIST + ["Emit"],
-                     constraint="GenConstraintNT", max_hist=1500 if q else 30000)
+                     constraint="GenConstraintNT", max_hist=1500 if q else 8000)
     if len(hs) < 50:
         raise vkit.InfraError("too few histories")
     dc = ec.drv_cfg(c)
@@ -103,7 +103,7 @@ def run(tier, seed):
     outs = run_batch(chk, exe, plain, "plain")
     # (b) rejected / failing calls inserted
     bad = []
-    for s in plain[: (800 if q else 10000)]:
+    for s in plain[: (800 if q else 4000)]:
         h = list(s["h"])
         for _ in range(rnd.randint(1, 3)):
             h.insert(rnd.randint(0, len(h)), {"a": "oncebad", "n": rnd.randrange(NBAD)})
@@ -121,13 +121,13 @@ def run(tier, seed):
     # the same rejected / failing calls under the poll and select backends (their dispatch error paths differ)
     for be in ("select", "poll"):
         sub = []
-        for s in bad[: (250 if q else 3000)]:
+        for s in bad[: (250 if q else 1000)]:
             cfg = dict(s["cfg"]); cfg["backend"] = be; cfg["tick_ns"] = 1000000
             sub.append({"cfg": cfg, "h": s["h"]})
         run_batch(chk, exe, sub, "badargs_" + be)
     # (c) n-th allocation fails, for every n reached
     af = []
-    pick = rnd.sample(range(len(plain)), min(len(plain), 40 if q else 600))
+    pick = rnd.sample(range(len(plain)), min(len(plain), 40 if q else 200))
     for i in pick:
         n_alloc = outs[i].get("allocs", 0) if isinstance(outs[i], dict) else 0
         for n in range(1, min(n_alloc, 80) + 1):
